@@ -152,6 +152,8 @@ var (
 	vLimit    = 20000
 )
 
+var vTraceAt = -1 // switch IsTrace on when the parse performs its vTraceAt-th reduction
+
 var (
 	vNestAt    = -1 // run a nested parse when the outer parse performs its vNestAt-th reduction
 	vNestIn    []int
@@ -170,6 +172,9 @@ func rec(n int, f func()) {
 	vSteps++
 	if vSteps > vLimit {
 		panic("vlimit")
+	}
+	if vNestDepth == 0 && vTraceAt > 0 && vSteps == vTraceAt {
+		IsTrace = true
 	}
 	if vNestDepth == 0 && vNestAt > 0 && vSteps == vNestAt {
 		vNestDepth++
@@ -252,6 +257,7 @@ type vOp struct {
 	In       []int   ` + "`json:\"in\"`" + `
 	Init     bool    ` + "`json:\"init\"`" + `
 	Trace    bool    ` + "`json:\"trace\"`" + `
+	TraceAt  int     ` + "`json:\"trace_at\"`" + `
 	NestAt   int     ` + "`json:\"nest_at\"`" + `
 	NestIn   []int   ` + "`json:\"nest_in\"`" + `
 	Parses   []vOp   ` + "`json:\"parses\"`" + `
@@ -360,9 +366,10 @@ func vNested(in []int, then func()) vRes {
 func vParse(op vOp) vRes {
 	vTrace, vSteps = nil, 0
 	vNestAt, vNestIn, vNestRes = op.NestAt, op.NestIn, nil
-	defer func() { vNestAt = -1 }()
+	vTraceAt = op.TraceAt
+	defer func() { vNestAt, vTraceAt = -1, -1 }()
 	var res vRes
-	res.Out = vCapture(op.Trace, func() {
+	res.Out = vCapture(op.Trace || op.TraceAt > 0, func() {
 		IsTrace = op.Trace
 		defer func() { IsTrace = false }()
 		res = vRun1(0, func() *ValType {
@@ -472,9 +479,10 @@ func vNested(in []int, then func()) vRes {
 func vParse(op vOp) vRes {
 	vTrace, vSteps = nil, 0
 	vNestAt, vNestIn, vNestRes = op.NestAt, op.NestIn, nil
-	defer func() { vNestAt = -1 }()
+	vTraceAt = op.TraceAt
+	defer func() { vNestAt, vTraceAt = -1, -1 }()
 	var res vRes
-	out := vCapture(op.Trace, func() {
+	out := vCapture(op.Trace || op.TraceAt > 0, func() {
 		IsTrace = op.Trace
 		defer func() { IsTrace = false }()
 		res = vRun1(op.Ctx, func() *ValType {
